@@ -8,7 +8,7 @@ SPEC = dict(
     level_note="Trusts: Go runtime and race detector, the ~300-line model etcd (Get snapshot+revision atomic, Watch replays the log from the requested revision), the exclusive-owner model, runtime.Stack goroutine states as the 'event fully processed' handshake. Not asserted (sound to omit): a key changing its value during its life (excluded by the quantifier); anything while undelivered changes exist (only after delivery or reload); which of several keys of one snapshot owns a shared value in exclusive mode (announcement order unspecified: either accepted); listener invocation counts beyond 'ran, and last run saw the final set'; a subscriber joining at an arbitrary point of a running reload (only the gated, WaitGroup-ordered window is scheduled); real gRPC connectivity transitions (the state watcher is fed a scripted etcdConn).",
     design_ref="DESIGN.md §3 C15",
     assumptions=[
-        "each life of a key carries one value; a live key is never overwritten with another value. In all families but Rekeyed a key keeps its value over all its lives; in Rekeyed a deleted key may be registered again with another value (delete and re-registration delivered, or both missed until a reload)",
+        "values are arbitrary strings including the empty string (one value pool in three contains it); each life of a key carries one value; a live key is never overwritten with another value. In all families but Rekeyed a key keeps its value over all its lives; in Rekeyed a deleted key may be registered again with another value (delete and re-registration delivered, or both missed until a reload)",
         "the model etcd is faithful where the registry depends on it: Get returns snapshot and revision atomically, a watch created WithRev(r) is replayed every event with revision >= r in order, delete events carry the key only",
         "events are delivered in revision order per watch stream; 'missed' events are exactly those undelivered when a reload starts",
         "a watch response without events (progress notification) is legal input; an error response (Canceled, or CompactRevision set) is the last one on its channel, which is then closed, as the etcd client does",
